@@ -17,6 +17,7 @@ type SkClause struct {
 	PV    bool   `json:"pv"`
 	Dir   string `json:"dir"`
 	W     string `json:"w"`
+	XC    string `json:"xc"`
 }
 
 func nodeText(v string, kind int, props string) string {
@@ -54,12 +55,29 @@ func Render(sk []SkClause) string {
 			sb.WriteString("optional ")
 		}
 		sb.WriteString("match ")
-		var conds []string
+		var conds, cross []string
 		if c.Sel == 1 || c.Sel == 3 {
 			conds = append(conds, c.X+".name =~ 'a.*'")
 		}
 		if c.Sel == 2 || c.Sel == 3 {
 			conds = append(conds, c.Y+".name contains 'b'")
+		}
+		// a condition that reads a variable of an earlier clause (the first one in scope other than x and y)
+		if c.XC != "" && c.XC != "none" {
+			for _, prev := range bound {
+				if prev == c.X || prev == c.Y || strings.HasPrefix(prev, "p") {
+					continue
+				}
+				switch c.XC {
+				case "eq":
+					cross = append(cross, c.X+".v = "+prev+".v")
+				case "any":
+					cross = append(cross, "any(i in "+c.X+".list where i = "+prev+".v)")
+				case "noneof":
+					cross = append(cross, "none(i in "+prev+".list where i = "+c.X+".v)")
+				}
+				break
+			}
 		}
 		if c.PV && c.Shape != "node" {
 			p := fmt.Sprintf("p%d", i)
@@ -91,6 +109,7 @@ func Render(sk []SkClause) string {
 			bind(c.X)
 			bind(c.Y)
 		}
+		conds = append(conds, cross...)
 		if len(conds) > 0 {
 			sb.WriteString(" where " + strings.Join(conds, " and "))
 		}
